@@ -10,7 +10,7 @@ use deno_graph::*;
 
 pub fn gen_case(seed: u64, k: u64, tier: Tier) -> Case {
   let mut rng = Rng::for_case(seed, k);
-  let cfg = GenCfg { max_modules: if tier == Tier::Quick { 7 } else { 10 }, redirects: true, faults: true, same_attr_proviso: true };
+  let cfg = GenCfg { assets: false, max_modules: if tier == Tier::Quick { 7 } else { 10 }, redirects: true, faults: true, same_attr_proviso: true };
   let (world, roots) = gen_world(&mut rng, &cfg);
   // a root is a request without attribute: under the proviso it must not be a json-attribute target
   let roots: Vec<String> = {
